@@ -21,7 +21,7 @@ PROPS = {
         "run_modules": ["RunKV"],
         "n": {"quick": 4000, "thorough": 60000},
         "level": "proof",
-        "technique": "Coq refinement proof (model of valuesForKeyPath/valuesForArray = declarative path semantics, all Maps and paths) + go2v translation of func parsePath from the current keyvalues.go proved equal to the model's parse_path (GenProofs/PureG2.v) + model/implementation correspondence by vm_compute",
+        "technique": "Coq refinement proof (model of valuesForKeyPath/valuesForArray = declarative path semantics, all Maps and paths) + go2v translation of func parsePath from the current keyvalues.go proved equal to the model's parse_path (GenProofs/PureG2.v), and of every function below Map.ValuesForPath, Map.ValueForPath, Map.ValueForPathString, Map.ValueOrEmptyForPathString and Map.Exists, each proved equal to the model (PureG3, PureG5, PureG7, PureG9, PureG39) + model/implementation correspondence by vm_compute",
         "design_ref": "DESIGN.md section 6, C07",
         "assumptions": KV_ASSUME,
         "level_text": "Machine-checked refinement theorems over the executable model of ValuesForPath/ValueForPath/Exists (unbounded: every Map, every key list / path string), with the model tied to the current /repo by differential correspondence evaluated inside Coq and a Go-side oracle that evaluates the path semantics on the implementation's own results.",
@@ -63,10 +63,10 @@ XML_ASSUME = [
 ]
 PROPS["C01"] = {"title": "XML decodes to the Map the documented conventions prescribe, under all options", "run_modules": ["RunXml"], "gen": ["setters", "pure"],
     "n": {"quick": 2500, "thorough": 40000}, "level": "proof",
-    "technique": "Coq model of xmlToMapParser/cast over token lists + declarative conventions conv (Spec/Conv.v) + correspondence by vm_compute + Go-side oracle transcribing the conventions",
+    "technique": "Coq proof that the model decoder = the declarative conventions conv (Spec/Conv.v, all options) + go2v translation of NewMapXml / xmlToMap / xmlToMapParser / cast / escapeChars from the current xml.go, each proved equal to the model (GenProofs/PureG, PureG13, PureG14, PureG39: NewMapXml(doc) = model decoder on the configured token stream) + model/implementation correspondence by vm_compute on real token streams + Go-side oracle transcribing the conventions",
     "design_ref": "DESIGN.md section 6, C01", "assumptions": XML_ASSUME,
     "level_text": "Executable Coq model of the decoder (all options, cast, escaping, tag sequence numbers) tied to the current /repo on real token streams; theorems over the model; the Go-side oracle compares NewMapXml with a direct transcription of the conventions on abstract documents rendered with random lexical choices.",
-    "level_note": "Trusted: Coq kernel; encoding/xml tokenizer and strconv as environment; hand-written model validated by correspondence on every run."}
+    "level_note": "Trusted: Coq kernel; encoding/xml tokenizer (ext_xml_NewDecoder and the two decoder-configuration functions ext_useCustomDecoder / ext_xml_set_CharsetReader, arbitrary in the theorems) and strconv as environment; hand-written model validated by correspondence on every run and additionally equal to the translation of the current source (C01_xml_parser_code_is_model, C01_xml_to_map_code_is_model, C01_new_map_xml_code_is_model); the reader entry points NewMapXmlReader[Raw] are tied by correspondence only."}
 
 # further properties: one file bin/props.d/<id>.py each, defining PROP = {...} (same keys as above)
 import glob as _glob, os as _os
